@@ -11,14 +11,40 @@ Local Open Scope string_scope.
 (* one presentation of a locator to VerifySignature and what came back *)
 Record pres := { p_loc : string; p_tok : string; p_ttl : N; p_key : string; p_obs : vres }.
 
+(* Perturbed presentations are written as differences from the signed locator and the original
+   token / ttl / key (string literals are the expensive part of a generated file): the locator as an
+   edit of the presented base string, the others as None = unchanged. *)
+Inductive edit :=
+| EId                          (* unchanged *)
+| ESet (i : nat) (c : N)       (* byte i replaced by c *)
+| EDel (i : nat)               (* byte i removed *)
+| EIns (i : nat) (c : N)       (* c inserted before byte i *)
+| ELoc (s : string).           (* a different string *)
+Definition apply_edit (base : string) (e : edit) : string :=
+  match e with
+  | EId => base
+  | ESet i c => take i base ++ String (ascii_of_N c) (drop (S i) base)
+  | EDel i => take i base ++ drop (S i) base
+  | EIns i c => take i base ++ String (ascii_of_N c) (drop i base)
+  | ELoc s => s
+  end.
+Record dpres := { d_edit : edit; d_tok : option string; d_ttl : option N; d_key : option string; d_obs : vres }.
+Definition resolve (base tok : string) (ttl : N) (key : string) (d : dpres) : pres :=
+  {| p_loc := apply_edit base (d_edit d);
+     p_tok := match d_tok d with Some t => t | None => tok end;
+     p_ttl := match d_ttl d with Some t => t | None => ttl end;
+     p_key := match d_key d with Some k => k | None => key end;
+     p_obs := d_obs d |}.
+
 Inductive case :=
 (* SignLocator(loc, tok, Unix(exp), ttl, key) = o *)
 | CSign (loc tok : string) (exp ttl_ns : N) (key : string) (o : string)
 (* VerifySignature(loc, tok, ttl, key) = o, called while time.Now() was within a second of now_ns and
    at least an hour away from every expiry involved *)
 | CVerify (loc tok : string) (ttl_ns : N) (key : string) (now_ns : N) (o : vres)
-(* a locator signed by the implementation (o_signed) and perturbed presentations of it *)
-| CPerturb (loc tok : string) (exp ttl_ns : N) (key : string) (now_ns : N) (o_signed : string) (ps : list pres)
+(* a locator signed by the implementation (o_signed), possibly followed by one more hint (post), and
+   perturbed presentations of o_signed ++ post *)
+| CPerturb (loc tok : string) (exp ttl_ns : N) (key : string) (now_ns : N) (o_signed post : string) (ps : list dpres)
 (* SignManifest(m, tok, Unix(exp), ttl, key) = o *)
 | CManifest (m tok : string) (exp ttl_ns : N) (key : string) (o : string)
 (* keepstore: GET path with the given Authorization header; stored = a block with that hash was PUT
@@ -122,12 +148,12 @@ Definition spec_k (mk : sigfun) (c : case) : bool :=
   match c with
   | CSign loc tok exp ttl key o => spec_sign_k mk loc tok exp ttl key o
   | CVerify loc tok ttl key now o => spec_verify_k mk loc tok ttl key now o
-  | CPerturb loc tok exp ttl key now o_signed ps =>
+  | CPerturb loc tok exp ttl key now o_signed post ps =>
     spec_sign_k mk loc tok exp ttl key o_signed &&
     (let '(k, h, t, e, l) := base_tuple loc tok exp ttl key in
      let bs := mk k h t e l in
      forallb' (fun p => spec_verify_k mk (p_loc p) (p_tok p) (p_ttl p) (p_key p) now (p_obs p) &&
-                        spec_pert_b (k, h, t, e, l) bs p) ps)
+                        spec_pert_b (k, h, t, e, l) bs p) (map (resolve (o_signed ++ post) tok ttl key) ps))
   | CManifest m tok exp ttl key o => spec_manifest_k mk m tok exp ttl key o
   | CGet signing path auth ttl key now stored code body_ok => spec_get_k mk signing path auth ttl key now stored code body_ok
   | CRe s g => true
@@ -150,9 +176,10 @@ Definition model_k (mk : sigfun) (c : case) : bool :=
     ((exp <? 268435456)%N || String.eqb key "" || String.eqb tok "" ||
      String.eqb o (let ts := hexn exp in loc ++ "+A" ++ mk key (blob_hash loc) tok ts (hexn (ttl / 1000000000)%N) ++ "@" ++ ts))
   | CVerify loc tok ttl key now o => vres_eqb o (verify_k mk loc tok ttl key now)
-  | CPerturb loc tok exp ttl key now o_signed ps =>
+  | CPerturb loc tok exp ttl key now o_signed post ps =>
     String.eqb o_signed (sign_locator_k mk loc tok exp ttl key) &&
-    forallb' (fun p => vres_eqb (p_obs p) (verify_k mk (p_loc p) (p_tok p) (p_ttl p) (p_key p) now)) ps
+    forallb' (fun p => vres_eqb (p_obs p) (verify_k mk (p_loc p) (p_tok p) (p_ttl p) (p_key p) now))
+             (map (resolve (o_signed ++ post) tok ttl key) ps)
   | CManifest m tok exp ttl key o => String.eqb o (sign_manifest_k mk m tok exp ttl key)
   | CGet signing path auth ttl key now stored code body_ok =>
     let g := get_gate_k mk signing path auth ttl key now in
@@ -194,8 +221,9 @@ Definition needs (c : case) : list tuple :=
   match c with
   | CSign loc tok exp ttl key o => [base_tuple loc tok exp ttl key]
   | CVerify loc tok ttl key now o => verify_needs loc tok ttl key now
-  | CPerturb loc tok exp ttl key now o_signed ps =>
-    base_tuple loc tok exp ttl key :: flat_map (fun p => verify_needs (p_loc p) (p_tok p) (p_ttl p) (p_key p) now) ps
+  | CPerturb loc tok exp ttl key now o_signed post ps =>
+    base_tuple loc tok exp ttl key ::
+    flat_map (fun p => verify_needs (p_loc p) (p_tok p) (p_ttl p) (p_key p) now) (map (resolve (o_signed ++ post) tok ttl key) ps)
   | CManifest m tok exp ttl key o => manifest_needs m tok exp ttl key
   | CGet signing path auth ttl key now stored code body_ok =>
     if signing then verify_needs (drop 1 path) (api_token auth) ttl key now else []
@@ -216,5 +244,5 @@ Fixpoint failing_from (i : N) (cs : list case) : list (N * N) :=
 Definition failing (cs : list case) : list (N * N) := failing_from 0%N cs.
 
 (* short constructor for the generated files *)
-Definition P (loc tok : string) (ttl : N) (key : string) (o : vres) : pres :=
-  {| p_loc := loc; p_tok := tok; p_ttl := ttl; p_key := key; p_obs := o |}.
+Definition D (e : edit) (tok : option string) (ttl : option N) (key : option string) (o : vres) : dpres :=
+  {| d_edit := e; d_tok := tok; d_ttl := ttl; d_key := key; d_obs := o |}.
